@@ -101,3 +101,21 @@ def _(t: "Type") -> "Bool":
     pass
 
 
+
+
+# ---------------------------------------------------------------- "contains type variables"
+@ghost
+def HasTV(t: "Type") -> "Bool":
+    """t is, or contains at any depth of its type arguments / projection bounds, an abstract type (a type variable or a
+    bare type constructor).  A star projection contains none.  Recursive definition over the finite type structure."""
+    define(ite(isinstance(t, WildCardType),
+               cast(t, "WildCardType").bound is not None and HasTV(cast(t, "WildCardType").bound),
+               ite(isinstance(t, ParameterizedType),
+                   exists(lambda i: 0 <= i and i < len(cast(t, "ParameterizedType").type_args)
+                          and HasTV(cast(t, "ParameterizedType").type_args[i])),
+                   isinstance(t, AbstractType))))
+
+
+@family("src.ir.types.Type.has_type_variables", pure=True)
+def _(self: "Type") -> "Bool":
+    ensures("def", result == HasTV(self))
